@@ -199,6 +199,26 @@ class LibMixin:
             v = self.fresh_value(t, "sb")
             self.type_facts(st, v, t, param=False)
             return v
+        if callee in ("net.(Conn).Read", "io.(Reader).Read"):
+            self.models_used.add("%s (io.Reader contract: returns 0 <= n <= len(p), writes only p[:len(p)]; trusted)" % callee)
+            pv = self.ev(args[0], st)
+            if not isinstance(pv, SliceV) or pv.lv is not None:
+                return NotImplemented
+            r = self.unknown_call(callee, e, st, evaluated=True, argvals=[pv], argtypes=[self.T(args[0])])
+            n = r.items[0]
+            self.assume(st, z3.And(n >= 0, n <= pv.ln))
+            if not self.spec:
+                st.ghost["ret:%s:0" % self.prog.short(callee)] = n
+                self.arg_types[(self.prog.short(callee), "ret")] = self.int_type
+            self.frame_region_write(st, pv.rid, pv.off)
+            key = "bv8"
+            m = self.mem_arr(st, key, z3.BitVecSort(8))
+            old_arr = z3.Select(m, pv.rid)
+            na = self.fresh("read@buf", z3.ArraySort(IS, z3.BitVecSort(8)))
+            q = z3.BitVec("p", IDX_BITS)
+            self.assume(st, z3.ForAll([q], z3.Implies(z3.Not(z3.And(q >= pv.off, q < pv.off + pv.ln)), z3.Select(na, q) == z3.Select(old_arr, q))))
+            st.mem[key] = z3.Store(m, pv.rid, na)
+            return r
         if callee in ("context.WithCancel", "context.WithTimeout", "context.WithDeadline", "context.WithCancelCause"):
             self.models_used.add("%s (returns a non-nil derived context and a non-nil cancel function; cancellation timing is not modelled)" % callee)
             for a in args:
